@@ -57,9 +57,9 @@ func (m *mctx) send(b []byte) error {
 
 func (m *mctx) recvCall() ([]byte, error) {
 	if m.c != nil {
-		return m.c.Recv()
+		return kit.Recv(m.c)
 	}
-	return m.s.Recv()
+	return kit.Recv(m.s)
 }
 
 type world struct {
